@@ -160,7 +160,7 @@ impl Property for C18 {
         ]
     }
     fn expected_probes(&self) -> Vec<&'static str> {
-        vec!["pitch", "pitch_tp0", "noise", "envelope", "envelope_period_measured", "ladder", "gating", "panning", "bound", "readback", "rate_below_27k", "ym_chip", "order_independence", "machine_retrigger", "listener_independence", "mirrored_register_numbers", "host_mute_unmute"]
+        vec!["pitch", "pitch_tp0", "noise", "envelope", "envelope_period_measured", "ladder", "gating", "panning", "bound", "readback", "rate_below_27k", "ym_chip", "order_independence", "machine_retrigger", "listener_independence", "mirrored_register_numbers", "host_mute_unmute", "envelope_long_hold", "machine_long_silence"]
     }
     fn time_unit_hz(&self) -> f64 {
         44_100.0
@@ -386,6 +386,80 @@ impl Property for C18 {
             st.pc = 0x8000;
             st.sp = 0x8FF0;
             st.to_impl(e.verif_cpu());
+            if (sc.get("seed") >> 9) & 3 == 0 {
+                // ---- the generators run while nothing is audible: a program keeps every amplitude register at
+                // zero for more than a second and then switches a channel on. A twin machine on which that
+                // channel was on all the time must sound the same from then on (tone phase, envelope position).
+                ctx.probe("machine_long_silence");
+                let mut t = new_emu(&cfg);
+                write_mem(&mut t, 0x8000, &[0xF3, 0x18, 0xFE]);
+                st.to_impl(t.verif_cpu());
+                let chb = ch as u8;
+                let shape = *rng.pick(&[8u8, 10, 12, 14, 10, 14]);
+                let ep: u16 = 1000 + rng.u16() % 3000; // ramp of 0.14 .. 0.58 s
+                let tp: u16 = 300 + rng.u16() % 3000;
+                let silent = 52 + rng.below(30) as usize;
+                let amp = if rng.bool() { 0x10 } else { 0x0F };
+                for (m, on) in [(&mut e, false), (&mut t, true)] {
+                    let mut wr = |r: u8, v: u8| {
+                        m.verif_bus().write_io(0xFFFD, r);
+                        m.verif_bus().write_io(0xBFFD, v);
+                    };
+                    wr(7, 0x3F & !(1 << chb));
+                    wr(chb * 2, tp as u8);
+                    wr(chb * 2 + 1, (tp >> 8) as u8);
+                    wr(11, ep as u8);
+                    wr(12, (ep >> 8) as u8);
+                    for k in 0..3u8 {
+                        wr(8 + k, 0);
+                    }
+                    wr(13, shape);
+                    wr(8 + chb, if on { amp } else { 0 });
+                }
+                // (the host takes the samples of every frame: the mixer stops generating when nobody does)
+                let play = |m: &mut Emu, frames: usize, out: &mut Vec<(f32, f32)>| -> Result<(), Fail> {
+                    for _ in 0..frames {
+                        run_frames(m, 1).map_err(|x| Fail::new("C18.run", "", x))?;
+                        drain_audio(m, out);
+                    }
+                    Ok(())
+                };
+                let mut sink = vec![];
+                for m in [&mut e, &mut t] {
+                    play(m, silent, &mut sink)?;
+                    m.verif_bus().write_io(0xFFFD, 8 + chb);
+                    m.verif_bus().write_io(0xBFFD, amp);
+                    // two frames for the output stage's memory of the switch-on (FIR resampler, then a DC filter
+                    // that subtracts the mean of the last 1024 samples)
+                    play(m, 2, &mut sink)?;
+                    sink.clear();
+                }
+                let (mut a, mut b) = (vec![], vec![]);
+                play(&mut e, 4, &mut a)?;
+                play(&mut t, 4, &mut b)?;
+                let swing = b.iter().fold((f32::MAX, f32::MIN), |a, s| (a.0.min(s.0), a.1.max(s.0)));
+                let sw = (swing.1 - swing.0).max(1e-6);
+                let worst = a.iter().zip(b.iter()).map(|(x, y)| (x.0 - y.0).abs().max((x.1 - y.1).abs())).fold(0f32, f32::max);
+                if std::env::var("VERIF_DEBUG").is_ok() {
+                    for i in (0..a.len().min(3528)).step_by(40) {
+                        eprintln!("{} a {:?} b {:?}", i, a[i], b[i]);
+                    }
+                }
+                if a.len() != b.len() || worst > 0.001 * sw {
+                    return Err(Fail::new(
+                        "C18.silence_stops_generators",
+                        &format!("envelope={}", (amp == 0x10) as u8),
+                        format!(
+                            "channel {} (TP={}, envelope shape {} EP={}) switched on after {} frames with all amplitude registers at zero differs from a machine on which it was on all the time: largest difference {:.5} of a swing of {:.4}",
+                            ch, tp, shape, ep, silent, worst, sw
+                        ),
+                    ));
+                }
+                cover(ctx, 4000 + (amp == 0x10) as u64);
+                ctx.units += 1;
+                ctx.sim_t += (2 * (silent + 5)) as u64 * 882;
+                return Ok(());
+            }
             let shape = *rng.pick(&[0u8, 1, 2, 3, 9, 4, 15]); // one-shot shapes ending at zero
             let ep: u16 = 200 + (rng.u16() % 200); // ramp of 29..58 ms
             let ch = ch as u8;
@@ -664,6 +738,45 @@ impl Property for C18 {
                 let ep = sc.get("ep").clamp(1, 65535) as u16;
                 let cycle = 256.0 * ep as f64 / CLK; // seconds for 32 steps
                 let spc = cycle * fr; // samples per ramp
+                // one-shot shapes hold their final level for good: with the shortest envelope periods the chip is
+                // followed over more than 2 x 65536 envelope steps after the R13 write; the level must not move
+                let one_shot = shape < 8 || shape & 1 == 1;
+                if one_shot && (sc.get("seed") >> 5) & 3 == 0 {
+                    ctx.probe("envelope_long_hold");
+                    let epl = 1 + ((sc.get("seed") >> 7) % 3) as u16;
+                    let mut c2 = Chip::new(ym, mode, rate);
+                    c2.quiet();
+                    c2.w(11, epl as u8);
+                    c2.w(12, 0);
+                    c2.w(8 + ch as u8, 0x1F);
+                    c2.w(13, shape);
+                    let ramp = 256.0 * epl as f64 / CLK * fr; // samples per 32 steps
+                    let mut first = vec![];
+                    c2.gen((ramp * 4.0) as usize + 200, Some(&mut first));
+                    let mut rest = vec![];
+                    c2.gen((ramp * (140_000.0 / 32.0)) as usize, Some(&mut rest));
+                    let pick = |v: &Vec<(f64, f64)>| -> Vec<f64> { if pan_of(mode, ch) == 2 { v.iter().map(|s| s.1).collect() } else { left(v) } };
+                    let (f, r) = (pick(&first), pick(&rest));
+                    let (flo, fhi) = f.iter().fold((f64::MAX, f64::MIN), |a, &v| (a.0.min(v), a.1.max(v)));
+                    let (rlo, rhi) = r.iter().fold((f64::MAX, f64::MIN), |a, &v| (a.0.min(v), a.1.max(v)));
+                    if fhi - flo > 1e-6 && rhi - rlo > 0.02 * (fhi - flo) {
+                        let at = r.iter().position(|&v| (v - r[0]).abs() > 0.02 * (fhi - flo)).unwrap_or(0);
+                        return Err(Fail::new(
+                            "C18.envelope_hold",
+                            &format!("oneshot=1,chip={}", if ym { "ym" } else { "ay" }),
+                            format!(
+                                "one-shot envelope shape {} EP={} at {} Hz: the held level moves again {:.0} envelope steps after the R13 write (swing {:.4} of the first ramp's {:.4})",
+                                shape,
+                                epl,
+                                rate,
+                                (at as f64 + ramp * 4.0 + 200.0) / ramp * 32.0,
+                                rhi - rlo,
+                                fhi - flo
+                            ),
+                        ));
+                    }
+                    ctx.sim_t += (f.len() + r.len()) as u64 * 44100 / rate as u64;
+                }
                 if spc < 96.0 || spc > 400_000.0 {
                     cover(ctx, 9999);
                     return self.finish(&c, ctx, rate);
